@@ -108,9 +108,12 @@ def impl(case):
     npart = 2
     try:
         pc = []
+        pe = []
         for part in tr.split(npart):
+            pe.append(sorted([int(v) for v in row] for row in part.events[['atom index', 'start site', 'destination site', 'time']].to_numpy()))
             c = Jumps(part, minimal_residence=case['mr']).counter()
             pc.append({f'{a}>{b}': int(v) for (a, b), v in c.items()})
+        out['rates_part_events'] = pe
         df = j.rates(npart)      # every part has jumps under the settings of the whole, so rates() has no reason to reject
         out['rates'] = {f'{a}>{b}': [float(r['rates']), float(r['std'])] for (a, b), r in df.iterrows()}
         out['rates_parts'] = pc
@@ -194,6 +197,18 @@ def oracle(case, out):
         fs.append(('counter/label', 'counter() is not the per-label aggregation of the matrix'))
     if out['edges'] != sorted([a, b] for (a, b) in jc) or out['nodes'] != list(range(n)):
         fs.append(('graph/edges', 'jump graph edge set differs from the support of the matrix'))
+    if 'rates_part_events' in out:
+        # the time parts behind the rates: part k holds exactly the events with bounds[k] <= t < bounds[k+1], times re-based to the part
+        T_ = len(case['outer'][0])
+        npart_ = len(out['rates_part_events'])
+        bounds = [int(v) for v in np.linspace(0, T_ + 1, npart_ + 1, dtype=int)]
+        allev = [(a, o[t], o[t + 1], t) for a, (o, i) in enumerate(zip(case['outer'], case['inner'])) for t in range(T_ - 1) if o[t] != o[t + 1] or i[t] != i[t + 1]]
+        for k_ in range(npart_):
+            wantp = sorted([a, s0, s1, t - bounds[k_]] for a, s0, s1, t in allev if bounds[k_] <= t < bounds[k_ + 1])
+            if wantp != out['rates_part_events'][k_]:
+                fs.append(('rates/parts-not-a-partition', f'time part {k_} of {npart_} (frames {bounds[k_]}..{bounds[k_ + 1]}) holds {len(out["rates_part_events"][k_])} events, '
+                           f'{len(wantp)} events of the history fall into it'))
+                break
     if 'rates' in out:
         na_ = len(case['outer'])
         denom = na_ * out['total_time'] / len(out['rates_parts'])
